@@ -556,6 +556,7 @@ func isBytesType(t types.Type) bool {
 func checkC03Provenance(p *Prog, r *Report) {
 	names := []string{"MarshalDocument", "MarshalResource", "MarshalCollection", "(Link).MarshalJSON", "(Error).MarshalJSON"}
 	n := 0
+	provSeen := map[*ssa.Function]bool{}
 	for _, name := range names {
 		f := p.Fn(name)
 		if f == nil {
@@ -563,10 +564,23 @@ func checkC03Provenance(p *Prog, r *Report) {
 			continue
 		}
 		r.fn(funcName(f))
-		eachInstr(f, func(ins ssa.Instruction) {
+		// the function and the small helpers it delegates phases to: a helper's
+		// byte results are judged where the helper produces them
+		scope := []*ssa.Function{f}
+		for _, g := range stringHelpers(f) {
+			if !provSeen[g] {
+				provSeen[g] = true
+				scope = append(scope, g)
+			}
+		}
+		inScope := func(g *ssa.Function) bool { return g != nil && g.Blocks != nil && smallHelper(g) && (provSeen[g]) }
+		eachInstrOf(scope, func(ins ssa.Instruction) {
 			v, ok := ins.(ssa.Value)
 			if !ok || !isBytesType(v.Type()) {
 				return
+			}
+			if c, _ := callOf(v); c != nil && inScope(c.Common().StaticCallee()) {
+				return // transparent: decided inside the helper
 			}
 			good, why := false, ""
 			switch x := ins.(type) {
@@ -845,7 +859,13 @@ func checkC03Include(p *Prog, r *Report) {
 			if bt, ok := g.Signature.Results().At(0).Type().Underlying().(*types.Basic); !ok || bt.Kind() != types.Bool {
 				return
 			}
-			if fmtTypeString(g.Params[0].Type()) != "jsonapi.Resource" {
+			nRes := 0
+			for _, q := range g.Params {
+				if fmtTypeString(q.Type()) == "jsonapi.Resource" {
+					nRes++
+				}
+			}
+			if nRes != 1 {
 				return
 			}
 			counts[g]++
@@ -880,6 +900,13 @@ func checkC03Include(p *Prog, r *Report) {
 		pf = predFn
 	}
 	r.fn(funcName(pf))
+	// the candidate resource: the predicate's parameter of type Resource
+	cand := pf.Params[0]
+	for _, q := range pf.Params {
+		if fmtTypeString(q.Type()) == "jsonapi.Resource" {
+			cand = q
+		}
+	}
 	{
 		good, why := true, ""
 		var retv ssa.Value
@@ -896,11 +923,84 @@ func checkC03Include(p *Prog, r *Report) {
 		} else {
 			// resolve free variables to what Include stored in them
 			resolve := func(v ssa.Value) (kind string) {
-				if isGetIDOf(v, pf.Params[0]) {
+				if isGetIDOf(v, cand) {
 					return "cand.id"
 				}
-				if isTypeNameOf(v, pf.Params[0]) {
+				if isTypeNameOf(v, cand) {
 					return "cand.type"
+				}
+				// a field of a key struct passed by value (receiver or argument):
+				// what Include stored in that field of the literal it passes. The
+				// struct parameter may be read directly or through its spilled copy.
+				var keyPrm *ssa.Parameter
+				keyField := -1
+				if fld, ok := v.(*ssa.Field); ok {
+					if q, ok := fld.X.(*ssa.Parameter); ok {
+						keyPrm, keyField = q, fld.Field
+					}
+				}
+				if ld, ok := v.(*ssa.UnOp); ok && ld.Op == token.MUL {
+					if fa, ok := ld.X.(*ssa.FieldAddr); ok {
+						if al, ok := fa.X.(*ssa.Alloc); ok {
+							if q, ok := singleStore(al).(*ssa.Parameter); ok {
+								keyPrm, keyField = q, fa.Field
+							}
+						}
+					}
+				}
+				if keyPrm != nil && pred == nil {
+					fld := struct{ Field int }{keyField}
+					if prm := keyPrm; true {
+						idx := -1
+						for i, q := range pf.Params {
+							if q == prm {
+								idx = i
+							}
+						}
+						kind := ""
+						eachInstr(f, func(ins ssa.Instruction) {
+							c, ok := ins.(*ssa.Call)
+							if !ok || c.Common().StaticCallee() != pf || idx < 0 || idx >= len(c.Common().Args) {
+								return
+							}
+							k := "?"
+							if ld, ok := c.Common().Args[idx].(*ssa.UnOp); ok && ld.Op == token.MUL {
+								if al, ok := ld.X.(*ssa.Alloc); ok {
+									var sv ssa.Value
+									ns := 0
+									for _, ref := range referrers(al) {
+										if fa, ok := ref.(*ssa.FieldAddr); ok && fa.Field == fld.Field {
+											for _, r2 := range referrers(fa) {
+												if st, ok := r2.(*ssa.Store); ok {
+													sv = st.Val
+													ns++
+												}
+											}
+										}
+										if st, ok := ref.(*ssa.Store); ok && st.Addr == ssa.Value(al) {
+											ns += 2 // overwritten as a whole
+										}
+									}
+									if ns == 1 {
+										if isGetIDOf(sv, res) {
+											k = "res.id"
+										} else if isTypeNameOf(sv, res) {
+											k = "res.type"
+										}
+									}
+								}
+							}
+							if kind == "" {
+								kind = k
+							} else if kind != k {
+								kind = "?"
+							}
+						})
+						if kind != "" {
+							return kind
+						}
+						return "?"
+					}
 				}
 				if prm, ok := v.(*ssa.Parameter); ok && pred == nil {
 					// what every call in Include passes for this parameter
@@ -983,7 +1083,7 @@ func checkC03Include(p *Prog, r *Report) {
 			return false
 		}
 		c, ok := isSameCall(cond)
-		return ok && isArg(c.Common().Args[0])
+		return ok && isArg(candidateArg(c))
 	}
 	// loads of d.Data asserted to a given interface
 	assertOfData := func(v ssa.Value, iface string) (*ssa.TypeAssert, bool) {
@@ -1115,7 +1215,7 @@ func checkC03Include(p *Prog, r *Report) {
 				_, isRet := s.Instrs[len(s.Instrs)-1].(*ssa.Return)
 				matched := false
 				if isIf && x.Succs[0] == s {
-					if c, ok := isSameCall(xi.Cond); ok && elemOK(c.Common().Args[0]) {
+					if c, ok := isSameCall(xi.Cond); ok && elemOK(candidateArg(c)) {
 						matched = true
 					}
 				}
@@ -1246,7 +1346,7 @@ func dataScanHelper(p *Prog, h *ssa.Function) (dataIdx, predIdx int, ok bool) {
 				ret, isRet := s2.Instrs[len(s2.Instrs)-1].(*ssa.Return)
 				matched := false
 				if isIf2 && x.Succs[0] == s2 {
-					if pc, ok := isPredCall(xi.Cond); ok && elemOK(pc.Common().Args[0]) {
+					if pc, ok := isPredCall(xi.Cond); ok && elemOK(candidateArg(pc)) {
 						matched = true
 					}
 				}
@@ -1268,7 +1368,7 @@ func dataScanHelper(p *Prog, h *ssa.Function) (dataIdx, predIdx int, ok bool) {
 					return false
 				}
 				pc, ok := isPredCall(cond)
-				return ok && elemOK(pc.Common().Args[0])
+				return ok && elemOK(candidateArg(pc))
 			}) {
 				good = false
 			}
@@ -1301,7 +1401,7 @@ func dataScanHelper(p *Prog, h *ssa.Function) (dataIdx, predIdx int, ok bool) {
 				if assertOf(cond, "Resource", 1) && !truth {
 					return true
 				}
-				if pc, ok := isPredCall(cond); ok && !truth && assertOf(pc.Common().Args[0], "Resource", 0) {
+				if pc, ok := isPredCall(cond); ok && !truth && assertOf(candidateArg(pc), "Resource", 0) {
 					return true
 				}
 				return false
@@ -1327,7 +1427,7 @@ func dataScanHelper(p *Prog, h *ssa.Function) (dataIdx, predIdx int, ok bool) {
 		}
 		// match's own answer for the primary resource
 		pc, ok := isPredCall(v)
-		if !ok || !assertOf(pc.Common().Args[0], "Resource", 0) {
+		if !ok || !assertOf(candidateArg(pc), "Resource", 0) {
 			return 0, 0, false
 		}
 	}
@@ -1400,4 +1500,18 @@ func isParamOrItsCopy(v ssa.Value, prm *ssa.Parameter) bool {
 		}
 	}
 	return false
+}
+
+// candidateArg: the argument of a predicate call that is the resource under
+// test: the one bound to the callee's parameter of type Resource (a method on
+// a key struct takes the key first), the first argument otherwise.
+func candidateArg(c *ssa.Call) ssa.Value {
+	if g := c.Common().StaticCallee(); g != nil {
+		for i, q := range g.Params {
+			if fmtTypeString(q.Type()) == "jsonapi.Resource" && i < len(c.Common().Args) {
+				return c.Common().Args[i]
+			}
+		}
+	}
+	return c.Common().Args[0]
 }
